@@ -10,7 +10,8 @@ EXTENDS Integers, Sequences, FiniteSets, TLC, Json
 CONSTANTS Conns, MaxReq, Closers,
           NoReportAfterTunnel,  \* mutant: tunnel() forgets the deferred report
           ReportTwiceOnConnect, \* mutant: writeResponse also reports a successful CONNECT
-          NoOnce                \* mutant: close callback without sync.Once
+          NoOnce,               \* mutant: close callback without sync.Once
+          MitmReportAtHandoff   \* mutant: an intercepted CONNECT is reported when its session has been set up
 
 \* exchange kinds and how they end
 \* upgrade_close: an upgrade request that also carries the "close" connection option (the connection is not going
@@ -20,7 +21,11 @@ Kinds == {"ok", "refused", "upstream_error", "connect_tunnel", "connect_rejected
           \* a CONNECT that asks the proxy to speak TLS to the target itself (X-Martian-Terminate-Tls) and whose handshake
           \* fails after the connection was dialled: an error response, and a dialled connection to give back
           \* (with the default configuration the handshake cannot succeed: no server name is set - DESIGN.md 14.4)
-          "connect_terminate_tls_fail"}
+          "connect_terminate_tls_fail",
+          \* an intercepted CONNECT that is answered 200 and whose session never comes about: the client goes away without
+          \* a byte, or what it sends is no TLS handshake
+          "mitm_connect_nohello", "mitm_connect_badhello"}
+MitmKinds == {"mitm_connect", "mitm_connect_nohello", "mitm_connect_badhello"}
 Tunnelled(k) == k \in {"connect_tunnel", "upgrade", "upgrade_close"}
 
 VARIABLES pc, kind, nreq, reports,        \* per connection: phase, current exchange kind, requests read, reports for the current request
@@ -46,7 +51,7 @@ Read(c, k) == /\ pc[c] = "idle" /\ nreq[c] < MaxReq
               /\ UNCHANGED <<wroteN, total, open, accepted, closedCb, closing>>
 Report(c) == /\ reports' = [reports EXCEPT ![c] = @ + 1] /\ wroteN' = wroteN + 1 /\ inflight' = inflight - 1 /\ total' = total + 1
 \* writeResponse for everything that is not a successful CONNECT / 101: the report is made here, error or not
-Respond(c) == /\ pc[c] = "handling" /\ ~Tunnelled(kind[c]) /\ kind[c] # "mitm_connect"
+Respond(c) == /\ pc[c] = "handling" /\ ~Tunnelled(kind[c]) /\ kind[c] \notin MitmKinds
               /\ Report(c)
               /\ pc' = [pc EXCEPT ![c] = IF kind[c] \in {"abort_upload", "abort_download", "connect_write_error"} THEN "closing" ELSE "idle"]
               /\ UNCHANGED <<kind, nreq, readN, open, accepted, closedCb, closing, hist>>
@@ -60,8 +65,10 @@ TunnelEnd(c) == /\ pc[c] = "tunnel"
                 /\ pc' = [pc EXCEPT ![c] = "closing"]
                 /\ UNCHANGED <<kind, nreq, readN, open, accepted, closedCb, closing, hist>>
 \* MITM: the 200 is reported at once, the connection then carries further requests
-MitmHead(c) == /\ pc[c] = "handling" /\ kind[c] = "mitm_connect"
-               /\ Report(c) /\ pc' = [pc EXCEPT ![c] = "idle"]
+\* (MitmReportAtHandoff: a variant that reports when the session has been set up - and so never for one that is not)
+MitmHead(c) == /\ pc[c] = "handling" /\ kind[c] \in MitmKinds
+               /\ IF MitmReportAtHandoff /\ kind[c] # "mitm_connect" THEN UNCHANGED <<reports, wroteN, inflight, total>> ELSE Report(c)
+               /\ pc' = [pc EXCEPT ![c] = IF kind[c] = "mitm_connect" THEN "idle" ELSE "closing"]
                /\ UNCHANGED <<kind, nreq, readN, open, accepted, closedCb, closing, hist>>
 \* the client goes away while idle
 Hangup(c) == /\ pc[c] = "idle" /\ pc' = [pc EXCEPT ![c] = "closing"]
